@@ -160,3 +160,64 @@ func VerifC04_Smoke() {
 	zz.Assert("C04.smoke.supply", e.Supply().Equal(bal) && e.SumBalances().Equal(bal))
 	zz.Reach("C04.smoke")
 }
+
+// ---- helpers exported for the harnesses of package pos (x/pos) ----
+
+func (e *VEnv) Slash(i int, power int64, frac sdk.Dec) sdk.Error {
+	return e.K.slash(e.Ctx, e.Addrs[i], e.Ctx.BlockHeight(), power, frac)
+}
+
+// IndexKeys returns the raw entries of the power index (prefix 0x23) as (key, value) pairs.
+func (e *VEnv) IndexEntries() (keys [][]byte, vals [][]byte) {
+	it := sdk.KVStorePrefixIterator(e.Ctx.KVStore(e.KeyPOS), types.StakedValidatorsKey)
+	defer it.Close()
+	for ; it.Valid(); it.Next() {
+		keys = append(keys, it.Key())
+		vals = append(vals, it.Value())
+	}
+	return
+}
+
+// QueueHas reports whether the unstaking queue holds addr at time t.
+func (e *VEnv) QueueHas(t time.Time, addr sdk.Address) bool {
+	for _, a := range e.K.getUnstakingValidators(e.Ctx, t) {
+		if a.Equals(addr) {
+			return true
+		}
+	}
+	return false
+}
+
+// QueueLen returns the total number of addresses queued (all times).
+func (e *VEnv) QueueLen() int {
+	n := 0
+	it := sdk.KVStorePrefixIterator(e.Ctx.KVStore(e.KeyPOS), types.UnstakingValidatorsKey)
+	defer it.Close()
+	for ; it.Valid(); it.Next() {
+		var addrs []sdk.Address
+		e.K.cdc.MustUnmarshalBinaryLengthPrefixed(it.Value(), &addrs)
+		n += len(addrs)
+	}
+	return n
+}
+
+func (e *VEnv) SigningInfo(i int) (types.ValidatorSigningInfo, bool) {
+	return e.K.GetValidatorSigningInfo(e.Ctx, e.Addrs[i])
+}
+
+func (e *VEnv) SetSigningInfo(i int, info types.ValidatorSigningInfo) {
+	e.K.SetValidatorSigningInfo(e.Ctx, e.Addrs[i], info)
+}
+
+func (e *VEnv) PrevStatePower(i int) (int64, bool) {
+	m := e.K.getPrevStatePowerMap(e.Ctx)
+	var a [sdk.AddrLen]byte
+	copy(a[:], e.Addrs[i])
+	bz, ok := m[a]
+	if !ok {
+		return 0, false
+	}
+	var p int64
+	e.K.cdc.MustUnmarshalBinaryLengthPrefixed(bz, &p)
+	return p, true
+}
